@@ -545,7 +545,7 @@ class TrackerProp(Prop):
     def fields(self, rec): return rec
     def project(self, op, line):
         r = _recs(line) if ("MAP " in line) else None
-        if r is None: return line.split()[0] if line else line
+        if r is None: return line if line.startswith("ADDEDQ") else (line.split()[0] if line else line)
         n, allpos, recs, order = r
         return (line.split()[0], line.split()[1] if line.startswith("ADDED") else "", tuple(order), self.pick(allpos, recs, order))
 
@@ -560,6 +560,11 @@ class C12(TrackerProp):
              "account_refines: for every history of frames and expiries the tracker projected to one address IS the abstract (count, lastHeard) machine; "
              "count_eq_frames / count_restarts: message count = number of DF17/18 frames of the address since it was (re)added")
     def pick(self, allpos, recs, order): return tuple((k, recs[k]["msgs"]) for k in order)
+    def ops(self, rng, tier):
+        ops = TrackerProp.ops(self, rng, tier)
+        # a busy sky: more than a thousand aircraft tracked at once (any fixed-size shortcut in the table shows only here)
+        for k in range(1 if tier == "quick" else 4): ops += gentrack.busy_sky(rng, 1100 + 50 * k)
+        return ops
 
 class C13(TrackerProp):
     id = "C13"; module = "Adsb.Theorems.C13"; design_ref = "5/C13"
@@ -866,6 +871,18 @@ class C11(Prop):
                             put(b, 45, 1, bits & 1); put(b, 56, 1, (bits >> 1) & 1); put(b, 68, 1, (bits >> 2) & 1); put(b, 67, 1, rng.below(2)); put(b, 80, 1, rng.below(2))
                             put(b, 81, 7, rng.choice([0, 1, 2, 127]))
                             fr.append(b)
+                # headings and speeds on and next to the rounding boundaries of the two printed numbers (`ceil` of the track, `floor` of the speed):
+                # due north / east / south / west, one knot either side of them (tracks just above 0 and just below 360), Pythagorean speeds
+                for (dew, vew, dns, vns) in ((0, 1, 0, 101), (1, 2, 0, 101), (0, 2, 0, 101), (1, 2, 0, 1001), (1, 9, 0, 409), (0, 2, 1, 101), (1, 2, 1, 101),
+                                             (0, 101, 0, 1), (0, 101, 0, 2), (0, 101, 1, 2), (1, 101, 0, 1), (1, 101, 0, 2), (1, 101, 1, 2), (0, 1, 1, 101),
+                                             (0, 4, 0, 5), (1, 4, 1, 5), (0, 301, 1, 401), (1, 1, 0, 1), (1, 2, 0, 2), (1, 1022, 0, 1023)):
+                    for st in (1, 2):
+                        b = rand_frame(rng, df, tc=19); put(b, 37, 3, st); put(b, 45, 1, dew); put(b, 46, 10, vew); put(b, 56, 1, dns); put(b, 57, 10, vns)
+                        put(b, 69, 9, 5 + rng.below(100)); fr.append(b)
+                for k in range(60 if tier == "quick" else 600):
+                    # random tracks within a degree of north on the western side (359 < track < 360)
+                    b = rand_frame(rng, df, tc=19); put(b, 37, 3, 1); put(b, 45, 1, 1); put(b, 46, 10, 2 + rng.below(4)); put(b, 56, 1, 0); put(b, 57, 10, 300 + rng.below(700))
+                    put(b, 69, 9, 5 + rng.below(100)); fr.append(b)
                 # target state flags
                 for flags in range(128):
                     b = rand_frame(rng, df, tc=29)
@@ -966,6 +983,7 @@ class C17(E2EProp):
         ui.check_histories(rng, tier, report)
         ui.check_batched(rng, tier, report)
         ui.check_coverage(rng, tier, report)
+        ui.check_edges(rng, tier, report)
 
 class C18(E2EProp):
     id = "C18"; module = "Adsb.Theorems.C18"; design_ref = "5/C18"
